@@ -35,5 +35,8 @@ s = open(p).read()
 i = s.index('| change | what was changed |')
 j = s.index('\n\n', i)
 s = s[:i] + table.rstrip('\n') + s[j:]
+s = re.sub(r'\*\*(@OWN@|\d+) of (@TOTAL@|\d+) are caught by the quick tier of the property they target\*\*',
+           f"**{stats['own']} of {stats['total']} are caught by the quick tier of the property they target**", s)
+s = re.sub(r'(@OTHER@|\d+) more \(C01-2\)', f"{stats['other_only']} more (C01-2)", s)
 open(p, 'w').write(s)
 print(stats)
